@@ -35,6 +35,8 @@ pub struct Proto {
     comp_type: Option<CompilationType>,
     max_width: usize,
     residual_depth: usize,
+    residual_path: Vec<Decision>,
+    residual_state: Option<St>,
     nb_next_var: usize,
     cur_var: Option<Variable>,
     layer_states: Vec<St>,
@@ -105,6 +107,16 @@ impl Problem for RecModel<'_> {
             let mut p = p.borrow_mut();
             if p.enabled && p.in_compile {
                 let expect = p.residual_depth + p.nb_next_var;
+                // first call of a compilation driven by a solver: the sub-problem itself must sit at the depth it claims
+                // (its path, replayed through the model, must lead to its state with decisions above that depth only)
+                if p.nb_next_var == 0 {
+                    if let Some(rs) = p.residual_state {
+                        match self.0.replay_prefix(&p.residual_path, p.residual_depth) {
+                            Err(e) => { let m = format!("next_variable called with depth {} for a sub-problem whose own path contradicts that depth: {}", depth, e); alarm12(&mut p, m); }
+                            Ok((s, _)) => { if s != rs { let m = format!("next_variable called with depth {} for sub-problem state {:?} but its path leads to {:?}", depth, rs, s); alarm12(&mut p, m); } }
+                        }
+                    }
+                }
                 if depth != expect { let m = format!("next_variable called with depth {} but the layer is {} layers below the problem root", depth, expect); alarm12(&mut p, m); }
                 if self.0.depth_embedded() {
                     if let Some(s) = states.iter().find(|s| s.d as usize != depth) { let m = format!("next_variable(depth={}) handed state {:?} of another layer", depth, s); alarm12(&mut p, m); }
@@ -216,6 +228,8 @@ impl Proto {
         self.comp_type = Some(comp_type);
         self.max_width = max_width;
         self.residual_depth = residual_depth;
+        self.residual_path.clear();
+        self.residual_state = None;
         self.nb_next_var = 0;
         self.cur_var = None;
         self.layer_states.clear();
@@ -244,7 +258,7 @@ impl<D: Default> Default for RecDD<D> { fn default() -> Self { RecDD(D::default(
 impl<D: DecisionDiagram<State = St>> DecisionDiagram for RecDD<D> {
     type State = St;
     fn compile(&mut self, input: &CompilationInput<St>) -> Result<Completion, Reason> {
-        let on = PROTO.with(|p| { let mut p = p.borrow_mut(); if p.enabled { p.begin(input.comp_type, input.max_width, input.residual.depth); } p.enabled });
+        let on = PROTO.with(|p| { let mut p = p.borrow_mut(); if p.enabled { p.begin(input.comp_type, input.max_width, input.residual.depth); p.residual_path = input.residual.path.clone(); p.residual_state = Some(*input.residual.state); } p.enabled });
         let r = self.0.compile(input);
         if on { PROTO.with(|p| p.borrow_mut().end()); }
         r
